@@ -78,7 +78,12 @@ func (e *Engine) verifyFunc(name, prop string, cfg solverCfg, verbose bool) *fun
 			vc.glue[key] = keep
 		}
 		if verbose {
-			fmt.Printf("  [%s] glue iteration %d: dropped %d candidates\n", name, iter, len(failed))
+			var fl []string
+			for k := range failed {
+				fl = append(fl, k)
+			}
+			sort.Strings(fl)
+			fmt.Printf("  [%s] glue iteration %d: dropped %d candidates: %s\n", name, iter, len(failed), strings.Join(fl, " "))
 		}
 	}
 	for key, cands := range vc.glue {
